@@ -174,6 +174,50 @@ def _create(e, c, a):
     return Enum('Ok', [Opaque('File(%s)' % path)], 'Result')
 @cmodel('Path::to_string_lossy', 'PathBuf::to_string_lossy')
 def _lossy(e, c, a): return StrBuf(as_pystr(a[0]))
+# paths are plain strings in this model (PathBuf = String, &Path = &str); only the lexical operations a front end is likely to use
+def _split_ext(path):
+    d, _, name = path.rpartition('/')
+    if name in ('', '.', '..') or '.' not in name[1:]: return path, None
+    stem, _, ext = name.rpartition('.')
+    return (d + '/' if d or path.startswith('/') else '') + stem, ext
+@cmodel('Path::extension', 'PathBuf::extension')
+def _extension(e, c, a):
+    ext = _split_ext(as_pystr(a[0]))[1]
+    return Enum('Some', [StrBuf(ext)], 'Option') if ext is not None else Enum('None', [], 'Option')
+@cmodel('Path::with_extension', 'PathBuf::with_extension')
+def _with_extension(e, c, a):
+    base = _split_ext(as_pystr(a[0]))[0]; ext = as_pystr(a[1])
+    return StrBuf(base + ('.' + ext if ext else ''))
+@cmodel('PathBuf::set_extension')
+def _set_extension(e, c, a):
+    r = a[0]; cur = deref(r)
+    base = _split_ext(as_pystr(cur))[0]; ext = as_pystr(a[1])
+    new = base + ('.' + ext if ext else '')
+    if isinstance(cur, StrBuf): cur.s = new
+    else: r.set(StrBuf(new))
+    return True
+@cmodel('Path::file_name', 'PathBuf::file_name')
+def _file_name(e, c, a):
+    nm = as_pystr(a[0]).rstrip('/').rpartition('/')[2]
+    return Enum('Some', [StrBuf(nm)], 'Option') if nm not in ('', '..') else Enum('None', [], 'Option')
+@cmodel('Path::file_stem', 'PathBuf::file_stem')
+def _file_stem(e, c, a):
+    nm = as_pystr(a[0]).rstrip('/').rpartition('/')[2]
+    if nm in ('', '..'): return Enum('None', [], 'Option')
+    return Enum('Some', [StrBuf(nm.rpartition('.')[0] if '.' in nm[1:] else nm)], 'Option')
+@cmodel('Path::to_path_buf', 'Path::to_owned', 'PathBuf::from', 'PathBuf::clone', 'Path::new', 'PathBuf::as_path', 'Path::as_os_str', 'PathBuf::as_os_str', 'OsStr::to_os_string',
+        'PathBuf::into_os_string', 'OsString::from', 'OsStr::new', 'Path::display', 'PathBuf::display')
+def _path_id(e, c, a): return StrBuf(as_pystr(a[0]))
+@cmodel('Path::to_str', 'PathBuf::to_str', 'OsStr::to_str')
+def _path_to_str(e, c, a): return Enum('Some', [StrBuf(as_pystr(a[0]))], 'Option')
+@cmodel('Path::join', 'PathBuf::join')
+def _path_join(e, c, a):
+    x, y = as_pystr(a[0]), as_pystr(a[1])
+    return StrBuf(y if y.startswith('/') else (x.rstrip('/') + '/' + y if x else y))
+@cmodel('Path::is_file', 'PathBuf::is_file', 'Path::try_exists', 'PathBuf::try_exists')
+def _is_file(e, c, a):
+    r = _exists(e, c, a)
+    return Enum('Ok', [r], 'Result') if c.endswith('try_exists') else r
 @cmodel('serde_json::to_writer', 'to_writer')
 def _to_writer(e, c, a):
     e.hooks.setdefault('fs_events', []).append(('write', repr(deref(a[0]))))
